@@ -237,16 +237,18 @@ def run_case(case) -> CaseResult:
                     worst = (ex, a, b)
     if worst is not None:
         ex, a, b = worst
+        n_changes = len(timeline) - 1
         if simple:
             kind = 'C20/window-excess:constant-limit'
-        elif flags['waiters_at_changes'] and ex <= 128 * flags['waiters_at_changes'] + 1e-6:
-            # a consumer was polling the replaced limiter object when the limit was set: old and new bucket
-            # both accrue until it is served (<= 128 bytes per such consumer)
-            kind = 'C20/window-excess:limit-change-with-waiter'
-        elif ex <= 128 + 1e-6:
+        elif ex <= 128 * n_changes + 1e-6:
             # full bucket copied on a limit change: refill() leaves last_refill untouched while the bucket is
-            # full (pinned by a unit test), so the idle time is granted once more after the first take
+            # full (pinned by a unit test), so the idle time is granted once more after the first take:
+            # <= 128 bytes per limit change
             kind = 'C20/window-excess:limit-change:le128'
+        elif flags['waiters_at_changes'] and ex <= 128 * (n_changes + flags['waiters_at_changes']) + 1e-6:
+            # in addition a consumer was polling the replaced limiter object when the limit was set: old and new
+            # bucket both accrue until it is served (<= 128 bytes per such consumer)
+            kind = 'C20/window-excess:limit-change-with-waiter'
         else:
             kind = 'C20/window-excess:limit-change:gt128'
         res.violate(kind, f'excess={ex:.1f} bytes in window [{grants[a][0]:.6f},{grants[b][0]:.6f}] '
